@@ -453,7 +453,7 @@ static void log_step (int t) {
 static int run_random (long runs, unsigned seed, const char *init, const char *violdir, const char *prop) {
 	long r, viols = 0, hung = 0, steps_total = 0, nontriv = 0;
 	int maxdl;
-	for (r = 0; r < runs; r++) {
+	for (r = 0; r < runs && viols < 40; r++) {     /* forty failing runs are enough (a livelock makes every run slow) */
 		char *sched = NULL; size_t sl = 0; FILE *sf = open_memstream (&sched, &sl);
 		long guard = 0;
 		int pct_depth = (int) (r % 4);      /* 0: uniform random; 1..3: priority schedule with that many change points */
@@ -511,7 +511,7 @@ static int run_random (long runs, unsigned seed, const char *init, const char *v
 		free (sched);
 		if (guard > 20) nontriv++;
 	}
-	printf ("STATS tours=%ld steps=%ld matched=%ld diverged=0 mismatches=0 violations=%ld nontrivial=%ld\n", runs, steps_total, runs - viols, viols, nontriv);
+	printf ("STATS tours=%ld steps=%ld matched=%ld diverged=0 mismatches=0 violations=%ld nontrivial=%ld\n", r, steps_total, r - viols, viols, nontriv);
 	printf ("MAXSLEEPS %d\n", maxsleeps);
 	return viols ? 1 : 0;
 }
